@@ -213,6 +213,82 @@ def run_emptied_case(purge, driver, stats, add):
             replay, {'want': want, 'got': got})
 
 
+def run_migrations_app_case(purge, driver, stats, add):
+    """A stale app that was managed by Django migrations (the stored
+    signature lists its applied migrations): purging it must drop its
+    tables and remove its entry exactly like an evolutions-managed app."""
+    from vf.checks import c09_pipeline as CP
+    stats['cases'] += 1
+    va = A('va', [M('Item', [F('name', 'Char', max_length=20)])])
+    vm = A('vm', [M('Doc', [F('title', 'Char', max_length=20),
+                            F('x', 'Int', null=True)])])
+    evos = {'va': {'SEQUENCE': [], 'modules': {}}}
+    migs = {'vm': [('0001_initial', CP.MIG1), ('0002_add_x', CP.MIG2)]}
+    MZ.install(P(S.clone(va), vm), evolutions=evos, migrations=migs)
+    B.fresh_db('default')
+    B.reset_globals()
+    r = D.d2_all()
+    replay = {'scenario': 'migrations-app', 'purge': purge,
+              'driver': driver}
+    shape = '%s|%s' % ('purge' if purge else 'no-purge', driver)
+    if not r.ok:
+        add('C15|migrations-app|setup-fails|%s' % r.exc_type, replay,
+            {'error': str(r.exc)[:200]})
+        return
+    before_tables = set(O.list_tables('default'))
+    before_ids = stored_app_ids()
+    image_item = O.raw_table_image('va_item')
+    MZ.install(P(S.clone(va)), evolutions=evos)
+    B.reset_globals()
+    if driver == 'D3':
+        res = D.d3(purge=purge)
+    else:
+        from django_evolution.evolve import Evolver
+        res = D.RunResult()
+        try:
+            ev = Evolver()
+            ev.queue_evolve_all_apps()
+            if purge:
+                ev.queue_purge_old_apps()
+            if ev.get_evolution_required():
+                ev.evolve()
+            res.ok = True
+        except Exception as e:
+            res.exc, res.exc_type = e, type(e).__name__
+            D._abort_transactions('default')
+    stats['runs'] += 1
+    if not res.ok:
+        add('C15|migrations-app|run-fails|%s|%s' % (res.exc_type, shape),
+            replay, {'error': str(res.exc)[:300]})
+        return
+    dropped = before_tables - set(O.list_tables('default'))
+    want_drop = {'vm_doc'} if purge else set()
+    if dropped != want_drop:
+        add('C15|migrations-app|dropped-tables-wrong|%s' % shape, replay,
+            {'dropped': sorted(dropped), 'want': sorted(want_drop)})
+    if O.raw_table_image('va_item') != image_item:
+        add('C15|migrations-app|other-table-modified|%s' % shape, replay,
+            {})
+    want = sorted(set(before_ids) - {'vm'}) if purge else before_ids
+    got = stored_app_ids()
+    if got != want:
+        add('C15|migrations-app|stored-signature-apps-wrong|%s' % shape,
+            replay, {'want': want, 'got': got})
+    if purge:
+        # a later run must not report the app as stale again
+        B.reset_globals()
+        from django_evolution.evolve import Evolver
+        ev = Evolver()
+        ev.queue_purge_old_apps()
+        try:
+            again = ev.get_evolution_required()
+        except Exception as e:
+            again = 'raises %s' % type(e).__name__
+        if again:
+            add('C15|migrations-app|purge-needed-again|%s' % shape, replay,
+                {'required': str(again)})
+
+
 def judge_delete(node, step, tr):
     out = []
     for fp, detail in c01.judge(node, step, tr):
@@ -241,6 +317,11 @@ def work(task):
             for driver in ('D3', 'D2'):
                 run_emptied_case(purge, driver, stats, add)
         stats['samples'].append({'scenario': 'emptied-app'})
+    elif kind == 'migrations-app':
+        for purge in (True, False):
+            for driver in ('D3', 'D2'):
+                run_migrations_app_case(purge, driver, stats, add)
+        stats['samples'].append({'scenario': 'migrations-app'})
     elif kind == 'purge':
         _k, pname, project, removed = task
         for purge in (True, False):
@@ -274,6 +355,7 @@ def run(tier, seed, confirm=True):
         tasks.append(('delete', pname, project,
                       2 if tier == 'quick' else 3))
     tasks.append(('emptied',))
+    tasks.append(('migrations-app',))
     total = {}
     coll = findings.Collector(PROP)
     for stats, viol in explore.run_tasks('vf.checks.c15.work', tasks,
@@ -315,6 +397,8 @@ def replay(path):
     stats = {'cases': 0, 'runs': 0}
     if r.get('scenario') == 'emptied-app':
         run_emptied_case(r['purge'], r['driver'], stats, add)
+    elif r.get('scenario') == 'migrations-app':
+        run_migrations_app_case(r['purge'], r['driver'], stats, add)
     elif r.get('kind') == 'delete' or 'steps' in r:
         node = EA.start_node(r['start'], r.get('rows'))
         for step in r['steps']:
